@@ -86,6 +86,39 @@ def _canon(F):
                 if canon not in F.adts and len(ps) == 1:
                     c[ps[0]] = canon
                     F.adts[canon] = F.adts[ps[0]]
+        # scheduler.rs: the shared state of a task handle (HandleInfo) is what TaskHandle's cell holds; the wrapper future (Remote) is
+        # the Future type of scheduler.rs that holds a cell of that state
+        if 'scheduler::HandleInfo' not in F.adts and 'scheduler::TaskHandle' in F.adts:
+            for v in F.adts['scheduler::TaskHandle']['variants']:
+                for f in v['fields']:
+                    t = F.ty(f['t'])
+                    if t['k'] == 'adt' and t['p'] in ('rc::MutArc', 'rc::MutRc') and t['a']:
+                        it = F.ty(t['a'][0])
+                        if it['k'] == 'adt' and it['p'].startswith('scheduler::'):
+                            c[it['p']] = 'scheduler::HandleInfo'
+                            F.adts['scheduler::HandleInfo'] = F.adts[it['p']]
+        # complete_status.rs: the waiter future (StatusFuture) is the Future type of that file
+        if 'ops::complete_status::StatusFuture' not in F.adts:
+            cands = []
+            for im in F.impls_of('futures::Future'):
+                t = F.ty(F.strip_refs(im['self']))
+                if t['k'] == 'adt' and t['p'].startswith('ops::complete_status::'):
+                    cands.append(t['p'])
+            if len(set(cands)) == 1:
+                c[cands[0]] = 'ops::complete_status::StatusFuture'
+                F.adts['ops::complete_status::StatusFuture'] = F.adts.get(cands[0], {'variants': [], 'generics': [], 'span': ''})
+        if 'scheduler::Remote' not in F.adts:
+            hi = [k for k, v in c.items() if v == 'scheduler::HandleInfo'] + ['scheduler::HandleInfo']
+            cands = []
+            for im in F.impls_of('futures::Future'):
+                t = F.ty(F.strip_refs(im['self']))
+                if t['k'] == 'adt' and t['p'].startswith('scheduler::') and t['p'] in F.adts:
+                    ftys = [F.tystr(f['t']) for v in F.adts[t['p']]['variants'] for f in v['fields']]
+                    if any(any(h in x for h in hi) for x in ftys):
+                        cands.append(t['p'])
+            if len(set(cands)) == 1:
+                c[cands[0]] = 'scheduler::Remote'
+                F.adts['scheduler::Remote'] = F.adts[cands[0]]
     except Exception:
         c = {}
     F._canon_map = c
